@@ -60,7 +60,7 @@ CONSTANTS
   MaxFaults = 1
   FDev = {{}}
 CONSTRAINT OpsBound
-INVARIANTS FaultContainedLive FaultContainedRestart StaysUsable
+INVARIANTS FaultContainedLive FaultContainedRestart StaysUsable AllFilesKnown
 CHECK_DEADLOCK FALSE
 """
         cfg = write_cfg(f"mc_fault_{os.getpid()}.cfg", cfgtext)
@@ -130,7 +130,7 @@ def gen_behaviours(v, tier, tag, sync, configs=None, maxops=None):
     maxops = maxops or (3 if tier == "quick" else 4)
     cfg = write_cfg(f"gen_{tag}.cfg", storage.MC_TMPL.format(
         spec="GSpec", keys=storage.K2, vals=storage.V2, configs=configs, maxops=maxops, crashes=0,
-        ops=storage.ALL_OPS, invs="INVARIANT Emit"))
+        ops=storage.ALL_OPS, invs="INVARIANT Emit") + storage.GEN_EXTRA)
     r = tlc("Gen_Seq.tla", cfg, workers=NCPU, timeout=3000, xmx="16g", metatag=f"gen-{tag}")
     v.add_tlc(f"Gen_Seq ops={maxops}, {configs} sync={sync}", r)
     if not r.ok:
@@ -334,6 +334,7 @@ def validate(v, prop, files, tag):
                        "seed": seed(), "header": hdr, "mode": P["mode"],
                        "behaviour": {"cfg": evs[0].get("cfg") if evs else None, "ops": ops},
                        "fault": {k: evs[0].get(k) for k in ("fault", "errno") if evs and k in evs[0]},
+                       "burst": (evs[0].get("burst") or None) if evs else None,
                        "events_tail": [{k: e[k] for k in e if k not in ("st",)} for e in evs[-8:]]}
             v.violation(f"{why} [line {line} of {os.path.basename(f)}, run {run_id}] {json.dumps(payload['behaviour'])[:300]}",
                         save_replay(prop, payload))
@@ -445,7 +446,10 @@ def replay(prop, path):
     bfile = os.path.join(work, "behaviours.jsonl")
     with open(bfile, "w") as f:
         f.write(json.dumps({"keys": rp["header"]["keys"], "vals": rp["header"]["vals"]}) + "\n")
-        f.write(json.dumps({"id": rp.get("run", "replay"), "cfg": rp["behaviour"]["cfg"], "ops": rp["behaviour"]["ops"]}) + "\n")
+        b = {"id": rp.get("run", "replay"), "cfg": rp["behaviour"]["cfg"], "ops": rp["behaviour"]["ops"]}
+        if rp.get("burst"):
+            b["burst"] = rp["burst"]
+        f.write(json.dumps(b) + "\n")
     pre = os.path.join(work, "re")
     files, sums, ab = run_shards("fsdrive", [rp["mode"], bfile, pre, "--seed", str(rp.get("seed", 1))], pre, 1)
     validate(v, prop, files, tag)
